@@ -785,9 +785,13 @@ def backslice(fn, start, mode="prov", extra_transparent=None, through_clone=True
             fs = pl.fields()
             if fs:
                 sl.upvars.add(fs[0])
-        work.append(pl.local)
+        # field-sensitive for the first projection: `_6.1` where `_6 = (a, b)` continues in `b` only
+        first = None
+        if pl.proj and isinstance(pl.proj[0], dict) and "f" in pl.proj[0]:
+            first = pl.proj[0]["f"]
+        work.append((pl.local, first))
         for ix in pl.index_locals():
-            work.append(ix)
+            work.append((ix, None))
 
     def push_op(op):
         if op.place is not None:
@@ -801,7 +805,7 @@ def backslice(fn, start, mode="prov", extra_transparent=None, through_clone=True
         elif isinstance(x, Place):
             push_place(x)
         elif isinstance(x, int):
-            work.append(x)
+            work.append((x, None))
         elif isinstance(x, (list, tuple, set)):
             for y in x:
                 push_any(y)
@@ -810,10 +814,30 @@ def backslice(fn, start, mode="prov", extra_transparent=None, through_clone=True
 
     push_any(start)
     steps = 0
+    seen_items = set()
     while work:
-        l = work.pop()
-        if l in sl.locals:
+        item = work.pop()
+        if item in seen_items:
             continue
+        seen_items.add(item)
+        l, fld = item
+        if fld is not None:
+            # only aggregate definitions can be narrowed to one field; anything else is the whole local
+            ds = [d for d in defs.get(l, []) if not fn.blocks[d[0]].cleanup]
+            if ds and all(d[2] == "assign" and d[3].rv.k == "agg" and d[3].place.is_local() and d[3].rv.j.get("ak") in ("tuple", "adt", "closure", "coroutine")
+                          for d in ds):
+                sl.locals.add(l)
+                for d in ds:
+                    ops = d[3].rv.ops
+                    sl.stmts.append((d[0], d[3]))
+                    if fld < len(ops):
+                        push_op(ops[fld])
+                continue
+            work.append((l, None))
+            continue
+        if l in sl.locals and (l, "whole") in seen_items:
+            continue
+        seen_items.add((l, "whole"))
         sl.locals.add(l)
         steps += 1
         if steps > max_steps:
